@@ -221,6 +221,102 @@ theorem prompt_when_parked (S : Scheds) (s : State) (hr : Reach S s) (tm : Timer
   · exact List.mem_append_right _ (List.mem_map_of_mem hran)
   · exact wakeLoop_updates hran
 
+/-- `one_start_per_wake_when_jumping` — the statement's "once for every activation instant that
+the clock reaches after the entry was added (once per wake-up if the clock jumps over several)":
+the loop is parked on an unfired timer armed with a fresh `now`; the clock is advanced from `c`
+to `c'`, crossing `k ≥ 1` activation instants of entry `e` (`e.Next ≤ c'`; the crossed instants
+are `e.Next, S(e.Next), …`).  Then that advance fires the timer and at the wake-up it enables
+*exactly one* start of `e` is recorded — for the first crossed instant `e.Next`, with `now = c'`
+at clock `c'` — the entry's `Next` becomes `S sid c'` (zero or `> c'`, i.e. past every crossed
+instant) with `Prev = e.Next`, and in every continuation every later start of `e` is for an
+instant `> c'`: the other `k − 1` crossed instants are never started. -/
+theorem one_start_per_wake_when_jumping (S : Scheds) (hS : WB S) (s : State) (hr : Reach S s)
+    (tm : Timer) (hpc : s.pc = .parked (some tm)) (hunf : tm.fired = none)
+    (hfresh : s.now = tm.armedAt) (e : Entry) (he : e ∈ s.entries) (hnz : e.next ≠ 0)
+    (c' : Nat) (hclk : s.clock ≤ c') (hdue : e.next ≤ c') :
+    ∃ s1 s2 new, step S s (.advance c') = some s1 ∧ step S s1 .wake = some s2 ∧
+      s2.log = new ++ s.log ∧
+      new.filter (fun r => r.id == e.id) = [Rec.run e.id e.sid e.next c' c'] ∧
+      (s2.jobs = s.jobs ++ (s2.jobs.drop s.jobs.length) ∧
+        (s2.jobs.drop s.jobs.length).filter (fun j => j.eid == e.id) = [launchJob c' e]) ∧
+      ({ e with prev := e.next, next := S e.sid c' } : Entry) ∈ s2.entries ∧
+      (S e.sid c' = 0 ∨ c' < S e.sid c') ∧
+      ∀ (h : List Label) (s3 : State), runFrom S s2 h = some s3 →
+        ∃ newer, s3.log = newer ++ s2.log ∧
+          ∀ r ∈ newer, r.id = e.id → r.isRun = true → c' < r.act := by
+  obtain ⟨hsorted, _, _, m, hm, hmnz, hmin, hd, _, _⟩ := reach_timerOK hr (some tm) hpc
+  have hA := reach_invA hr
+  have hdl : tm.deadline ≤ c' := by
+    rcases hmin e he with h0 | hle
+    · exact absurd h0 hnz
+    · omega
+  have htick : tm.tick c' = { tm with fired := some c' } := by
+    unfold Timer.tick; simp [hunf, hdl]
+  have hran := wakeLoop_all_due (S := S) (v := c') hsorted e he hnz hdue
+  have hnd : ((wakeLoop S c' s.entries).2.map (·.id)).Nodup :=
+    hA.nodup.sublist ((wakeLoop_ran_sublist S c' s.entries).map _)
+  have hstep1 : step S s (.advance c') = some { s with clock := c', pc := .parked (some (tm.tick c')) } := by
+    simp only [step, hpc]
+    rw [if_neg (by omega)]
+  have hstep2 : step S { s with clock := c', pc := .parked (some (tm.tick c')) } .wake =
+      some { s with clock := c', now := c', entries := (wakeLoop S c' s.entries).1, pc := .arm,
+                    jobs := s.jobs ++ (wakeLoop S c' s.entries).2.map (launchJob c'),
+                    log := (wakeLoop S c' s.entries).2.map (runRec c' c') ++ s.log } := by
+    simp only [step, htick]
+  refine ⟨_, _, _, hstep1, hstep2, rfl, ?_, ?_, wakeLoop_updates hran, hS e.sid c', ?_⟩
+  · exact filter_map_id_of_nodup (runRec c' c') (fun _ => rfl) hnd hran
+  · have hdrop : (s.jobs ++ (wakeLoop S c' s.entries).2.map (launchJob c')).drop s.jobs.length
+        = (wakeLoop S c' s.entries).2.map (launchJob c') := by simp
+    refine ⟨by rw [hdrop], ?_⟩
+    show ((s.jobs ++ (wakeLoop S c' s.entries).2.map (launchJob c')).drop s.jobs.length).filter _ = _
+    rw [hdrop]
+    -- same argument as for the records, on the launched jobs
+    have : ∀ {l : List Entry}, (l.map (·.id)).Nodup → e ∈ l →
+        (l.map (launchJob c')).filter (fun j => j.eid == e.id) = [launchJob c' e] := by
+      intro l
+      induction l with
+      | nil => intro _ h; cases h
+      | cons x xs ih =>
+        intro hn hx
+        simp only [List.map_cons, List.nodup_cons] at hn
+        simp only [List.map_cons, List.filter_cons, launchJob]
+        rcases List.mem_cons.1 hx with rfl | hx'
+        · simp only [beq_self_eq_true, if_true]
+          congr 1
+          rw [List.filter_eq_nil_iff]
+          intro j hj
+          obtain ⟨y, hy, rfl⟩ := List.mem_map.1 hj
+          simp only [beq_iff_eq]
+          intro heq
+          exact hn.1 (heq ▸ List.mem_map_of_mem hy)
+        · have hne : (x.id == e.id) = false := by
+            simp only [beq_eq_false_iff_ne]
+            intro heq
+            exact hn.1 (heq ▸ List.mem_map_of_mem hx')
+          simp only [hne, Bool.false_eq_true, if_false]
+          exact ih hn.2 hx'
+    exact this hnd hran
+  · intro h s3 hrun
+    have hr2 : Reach S _ := Reach.step _ (Reach.step _ hr hstep1) hstep2
+    have hr3 := reach_runFrom hr2 h hrun
+    obtain ⟨newer, hlog⟩ := runFrom_log_grows h hrun
+    refine ⟨newer, hlog, ?_⟩
+    have hlast : lastRec e.id ((wakeLoop S c' s.entries).2.map (runRec c' c') ++ s.log)
+        = some (runRec c' c' e) := by
+      rw [lastRec_map_append (runRec c' c') (fun _ => rfl), find_id_of_nodup hnd hran]
+    have hc3 := (reach_invB hr3).chain
+    rw [hlog] at hc3
+    intro r hrm hrid hrun'
+    have := (chain_after hS hlast hc3 r hrm hrid).2 hrun'
+    simpa using this
+
+/-- a period-3 schedule; the advance 10 → 20 crosses the instants 12, 15, 18: one start (for 12),
+next activation 21, and a second advance that reaches no instant starts nothing -/
+example : ∃ s : State, Reach (fun _ t => (t / 3 + 1) * 3) s ∧ acts 1 s.log = [12] ∧
+    s.entries.map (fun e => (e.next, e.prev)) = [(21, 12)] ∧ s.jobs.length = 1 :=
+  ⟨_, reach_runFrom (Reach.init 10) [.add 0, .start, .boot, .arm, .advance 20, .wake, .arm,
+      .advance 20, .jobBegin 0] rfl, by decide, by decide, by decide⟩
+
 example : ∃ s : State, Reach (fun _ t => t + 3) s ∧ ∃ tm, s.pc = .parked (some tm) ∧
     tm.fired = none ∧ s.now = tm.armedAt ∧ s.entries ≠ [] :=
   ⟨_, reach_runFrom (Reach.init 10) [.add 0, .start, .boot, .arm] rfl, _, rfl, rfl, rfl, by decide⟩
